@@ -282,6 +282,10 @@ def layout(repo: Repo) -> List[Ob]:
         explore(cfg, tuple(), transfer, limit=400000)
         n_checked += len({(getattr(c[0], "lineno", 0), c[1]) for c in ls.checked})
         kinds: Dict[str, int] = {}
+        # a stored density matrix whose rows/columns were scrambled is in general not Hermitian positive any more: also C07
+        # … and the interleaved layout exists at Matrix level only: a scramble there and a correct ket path give different states for
+        # the two contraction settings: also C08
+        props = tuple(dict.fromkeys(tuple(props) + ("C07", "C08")))
         for (ln, kind), (node, msg) in sorted(reported.items()):
             kinds[kind] = kinds.get(kind, 0) + 1
             obs.append(bad("LAYOUT", fi, f"{kind}#{kinds[kind]}", props, node, msg))
